@@ -1,13 +1,13 @@
 CFG = {
     "lean_targets": ["Norad.Props.C16"],
     "audit": "Norad/Audit/C16.lean",
-    "gens": ["C16", "C16path"],
+    "gens": ["C16", "C16path", "C16req"],
     "extract": "store_consts",
     "search_timeout": 75,
     "rule": ("operation histories (insert/remove/get/contains_key/clear/iter/keys/len/is_empty, environment steps on the source "
              "tree, Font::save into a sandbox with sentinels whose target holds sentinels / is absent / is an empty directory) on font.data / font.images, empty or loaded lazily from a generated tree; "
              "non-trivial = the history contains an insert, a get, an iter or a save; distinct by input tokens. "
-             "Path stream: every string over {a,b,.,/} up to length 6 (non-trivial: length >= 2) and pairs"),
+             "Request stream: Font::load_requested_data for every request call sequence of length <= 3 over ten calls (plus random longer ones), both stores' keys/get/len, a save elsewhere and in place (non-trivial: >= 2 calls). Path stream: every string over {a,b,.,/} up to length 6 (non-trivial: length >= 2) and pairs"),
     "exhaustive": {"quick": True, "thorough": True},
     "exhaustive_note": ("all 6 insert orders of every 3-subset of the 12-key nesting pool, both store kinds, followed by a save; "
                         "all strings over {a,b,.,/} up to length 6 for the path model; the random histories are not exhaustive"),
